@@ -16,6 +16,11 @@ def classify(res):
             break
     if where == "aggregator":
         return "aggregator rejects the Jacobian", "aggregator"
+    decs = [e for e in res.events if e["kind"] == "decision" and not e.get("forced")]
+    if decs:
+        org = {o for c in decs[-1]["compares"] for o in c.get("origins", [])}
+        if "parallel_chunk_size" in org:
+            return "non-positive parallel_chunk_size", "argument"
     last = fn.split(".")[-1]
     mod = fn.rsplit(".", 1)[0]
     if last == "_check_optional_positive_chunk_size":
